@@ -136,7 +136,7 @@ impl Prop for C11 {
     }
 
     fn runs(tier: Tier) -> u64 {
-        tier.pick(320, 4_000)
+        tier.pick(320, 1_500)
     }
 
     fn run_wall_limit_s() -> u64 {
